@@ -31,7 +31,8 @@ def cases(tier, seed):
             nX = rng.choice(DIMS[:6])
         nZ = [3, 4, 5, 9, 40][(i // 5) % 5] if i % 5 else [1030, 1024, 1025][(i // 5) % 3]
         kind = ['wspec', 'wspec', 'wspec-irregular', 'segy', 'segy-irregular'][i % 5]
-        d = {'id': 'rb:%d:%s:%dx%dx%d' % (i, kind, nI, nX, nZ), 'kind': kind, 'shape': [nI, nX, nZ], 'cost': 1 + nI * nX / 1500, 'prehistory': i % 2 == 1}
+        d = {'id': 'rb:%d:%s:%dx%dx%d' % (i, kind, nI, nX, nZ), 'kind': kind, 'shape': [nI, nX, nZ], 'cost': 1 + nI * nX / 1500, 'prehistory': i % 2 == 1,
+             'export_first': i % 3 == 2 and kind in ('wspec', 'segy')}
         if kind.startswith('wspec'):
             f = files.wspec_desc(rng, (nI, nX, nZ), 2, (4, 4, 1024), narr=rng.choice([0, 1, 2, 3, 5]) if kind == 'wspec' else rng.choice([2, 3]),
                                  version=[[0, 2, 9], [0, 2, 1], [0, 1, 9], [0, 2, 9]][(i // 5 + i % 5) % 4] if kind == 'wspec' else [0, 2, 9],
@@ -112,6 +113,10 @@ def run_case(case, ctx):
                     # ... and has re-blocked the file once already (the second output is the one observed)
                     c.convert_to_adv_sgz(out + '.first')
                     os.remove(out + '.first')
+                if case.get('export_first'):
+                    # ... or has exported the file to SEG-Y (harness-written files carry a format code the exporter replaces in its output)
+                    c.convert_to_segy(out + '.sgy')
+                    os.remove(out + '.sgy')
                 c.convert_to_adv_sgz(out)
     finally:
         del R.open
@@ -131,12 +136,19 @@ def run_case(case, ctx):
     if not b:
         nI, nX, nZ = sp.shape
         gm = np.flatnonzero(sp.mask()) if irregular else None
-        with SgzReader(out) as r, SgzReader(path) as s:
+        # the re-blocked file is read through a handle whose seeks are slow when issued from pool threads (nothing changes for
+        # a reader that serialises its positioned reads)
+        mf = monitors.MonFile(out)
+        mf.seek_delay = 0.0005
+        with SgzReader(mf) as r, SgzReader(path) as s:
             if r.tracecount != s.tracecount or r.structured != s.structured:
                 bad.append({'sig': 'reblock:tracecount-or-structured-differs', 'detail': '%s/%s vs %s/%s' % (r.tracecount, r.structured, s.tracecount, s.structured)})
             if r.get_source_data_hash() != s.get_source_data_hash():
                 bad.append({'sig': 'reblock:hash-differs', 'detail': ''})
             ops = reads.ops_3d((nI, nX, nZ), (64, 64, 4), rng, 16, tracecount=sp.ntr)
+            if nI > 64 or nX > 64:
+                # several 64x64 blocks side by side: the slab readers fetch them as separate tasks on the one file handle
+                ops += [('read_zslice', (z,)) for z in sorted({0, nZ - 1} | {rng.randrange(nZ) for _ in range(8)})]
             b2, k = reads.check_ops(r, ops, lambda op: reads.expected_3d(V, op, gm), tag='reblock:')
             bad += b2
             ncmp += k
@@ -156,17 +168,17 @@ def run_case(case, ctx):
 
     def cls(n_):
         return '<64' if n_ < 64 else '=64' if n_ == 64 else '<128' if n_ < 128 else '>=128'
-    strata = ['kind:' + case['kind'], 'prehistory:%s' % bool(case.get('prehistory')), 'il:' + cls(nI), 'xl:' + cls(nX), 'z:%s' % ('>1024' if nZ > 1024 else '=1024' if nZ == 1024 else '<=4' if nZ <= 4 else 'mid'),
+    strata = ['kind:' + case['kind'], 'prehistory:%s' % bool(case.get('prehistory')), 'export-first:%s' % bool(case.get('export_first')), 'il:' + cls(nI), 'xl:' + cls(nX), 'z:%s' % ('>1024' if nZ > 1024 else '=1024' if nZ == 1024 else '<=4' if nZ <= 4 else 'mid'),
               'narr:%d' % min(sp.narr, 3), '4n%%512:%s' % ('0' if sp.hlen % 512 == 0 else 'nz'), 'il%%4:%d' % (nI % 4), 'xl%%4:%d' % (nX % 4),
               'footer:' + ('padded' if sp.post_021 else 'unpadded')]
-    return {'violations': bad, 'counters': {'reblocks': 1, 'compared': ncmp, 'source_range_reads': len(shadow.log)}, 'strata': strata,
+    return {'violations': bad, 'counters': {'reblocks': 1, 'compared': ncmp, 'source_range_reads': len(shadow.log), 'slow_worker_seeks': mf.worker_seeks if not b else 0}, 'strata': strata,
             'key': case['id'], 'nontrivial': True}
 
 
 def finalize(tier, cases, results, counters, strata):
     reasons = []
     need = ['kind:wspec', 'kind:wspec-irregular', 'kind:segy', 'kind:segy-irregular', 'refusal', 'il:<64', 'il:<128', 'xl:<64', 'z:>1024', 'z:mid',
-            'footer:padded', 'footer:unpadded', 'il%4:0', 'xl%4:0']
+            'footer:padded', 'footer:unpadded', 'il%4:0', 'xl%4:0', 'export-first:True']
     for s in need:
         if s not in strata:
             reasons.append('required stratum not hit: ' + s)
